@@ -2564,7 +2564,12 @@ impl Engine for Roundtrip {
          non-BMP, build ids of length 0..64, arbitrary GUID/age, regions up to 4 KiB (quick) / 64 KiB (thorough), \
          addresses anywhere in u64 incl. the top of the address space, duplicate directory entries, optional list \
          padding) x {LE,BE} x {MemoryList,Memory64List}; serialized by minidump-synth AND by the Lean encoder, read \
-         by the real crate AND by the Lean decoder; non-trivial = at least one thread, module or memory region"
+         by the real crate AND by the Lean decoder; non-trivial = at least one thread, module or memory region; \
+         PLUS thread contexts as register files (`roundtrip ctx` cases): per architecture with a context record (x86, IA32-on-WIN64, \
+         amd64, ppc, ppc64, sparc, arm, arm64, old arm64, mips) register files with values 0 / all ones / 2^32-1 / pairwise distinct / \
+         boundary / random, flags of this CPU, with dropped bits, or of another CPU, written by a foreign writer (minidump-synth context \
+         sections or documented offsets) and by the Lean encoder, read by the real MinidumpThread::context and by the Lean decoder, \
+         both byte orders, every register by name and alias; non-trivial = a record type with at least one non-zero register"
             .into()
     }
 
@@ -2574,9 +2579,13 @@ impl Engine for Roundtrip {
             let m = gen_model(rng, tier, k);
             emit(m.line());
         }
+        regctx::generate(tier, rng, emit);
     }
 
     fn exec(&self, case: &str) -> ImplResult {
+        if case.starts_with("roundtrip ctx ") {
+            return regctx::exec(case);
+        }
         let mut res = ImplResult::default();
         let Some(m) = Model::parse(case) else {
             res.out = "bad-case".into();
@@ -2757,6 +2766,9 @@ impl Engine for Roundtrip {
     }
 
     fn model_request(&self, case: &str) -> Option<String> {
+        if case.starts_with("roundtrip ctx ") {
+            return regctx::model_request(case);
+        }
         let m = Model::parse(case)?;
         if region_wraps(&m) {
             return None;
@@ -2772,6 +2784,9 @@ impl Engine for Roundtrip {
 
     /// `model_out` = 4 decode answers ## 4 encodings (hex) ## 4 `report`s
     fn same(&self, impl_out: &str, model_out: &str) -> bool {
+        if impl_out.starts_with("roundtrip ctx ") {
+            return regctx::same(impl_out, model_out);
+        }
         let i: Vec<&str> = impl_out.split(" ## ").collect();
         let mo: Vec<&str> = model_out.split(" ## ").collect();
         if i.len() != 5 || mo.len() != 12 {
@@ -2819,6 +2834,9 @@ impl Engine for Roundtrip {
     }
 
     fn shrink(&self, case: &str, still_fails: &dyn Fn(&str) -> bool) -> String {
+        if case.starts_with("roundtrip ctx ") {
+            return regctx::shrink(case, still_fails);
+        }
         let Some(mut m) = Model::parse(case) else { return case.to_string() };
         // drop list items one at a time while the failure persists
         macro_rules! shrink_list {
@@ -3546,4 +3564,579 @@ fn gen_model(rng: &mut Rng, tier: Tier, k: usize) -> Model {
         }
     }
     m
+}
+
+// =================================================================================================
+// Thread contexts as REGISTER FILES (case lines `roundtrip ctx a=<arch> fl=<flags hex> seed=<n> R=<cell=hex,..|->`)
+//
+// The model of a thread's context is a register file over the cells `field` / `field[i]` of the
+// CONTEXT_* record of the dump's CPU (C18's representation) + the `context_flags` word. `exec` writes
+// the record with a FOREIGN writer (minidump-synth's x86 / amd64 / arm64 context sections where they
+// exist, patched with the remaining registers; otherwise a record built by hand from the documented
+// field offsets in the table below — independent of the layouts translated for the Lean side), puts
+// it into a dump with a system-info stream of that CPU and a thread (minidump-synth), in both byte
+// orders, and reads it back with the real `MinidumpThread::context(system_info, misc)`. Oracle on the
+// implementation alone: EVERY register by name and through every alias = the model's cell,
+// `get_instruction_pointer` / `get_stack_pointer` = the ip / sp cell, `valid_registers()` = the
+// general-purpose registers in order, LE = BE; a flags word selecting another CPU / an architecture
+// without context record reads as no context. The Lean side (`roundtrip ctx ..`) decodes the same two
+// foreign records (compared verbatim) and returns its own two encodings, which `same` wraps into
+// dumps, reads with the REAL reader and compares with the register file.
+mod regctx {
+    use super::*;
+
+    pub struct Spec {
+        pub variant: &'static str,
+        pub size: usize,
+        /// offset and width of `context_flags`
+        pub flags: (usize, usize),
+        pub cpu_flag: u32,
+        /// cell -> (offset, width), documented struct layout
+        pub cells: Vec<(String, usize, usize)>,
+        /// `REGISTERS` in order: name -> cell
+        pub regs: Vec<(String, String)>,
+        /// further names of the same registers: name -> cell
+        pub aliases: Vec<(String, String)>,
+        pub ip: String,
+        pub sp: String,
+    }
+
+    fn scalars(fields: &[(&str, usize, usize, usize)]) -> Vec<(String, usize, usize)> {
+        let mut out = Vec::new();
+        for &(name, off, w, count) in fields {
+            if count == 0 {
+                out.push((name.to_string(), off, w));
+            } else {
+                for i in 0..count {
+                    out.push((format!("{name}[{i}]"), off + i * w, w));
+                }
+            }
+        }
+        out
+    }
+    fn same_named(names: &[&str]) -> Vec<(String, String)> {
+        names.iter().map(|n| (n.to_string(), n.to_string())).collect()
+    }
+    fn indexed(prefix: &str, field: &str, range: std::ops::Range<usize>) -> Vec<(String, String)> {
+        range.map(|i| (format!("{prefix}{i}"), format!("{field}[{i}]"))).collect()
+    }
+    fn named(pairs: &[(&str, &str)]) -> Vec<(String, String)> {
+        pairs.iter().map(|(a, b)| (a.to_string(), b.to_string())).collect()
+    }
+
+    /// documented layouts (offsets in bytes) and register naming of the nine context records
+    pub fn spec(arch: u16) -> Option<Spec> {
+        Some(match arch {
+            0 | 10 => Spec {
+                variant: "X86",
+                size: 716,
+                flags: (0, 4),
+                cpu_flag: 0x10000,
+                cells: scalars(&[("edi", 156, 4, 0), ("esi", 160, 4, 0), ("ebx", 164, 4, 0), ("edx", 168, 4, 0), ("ecx", 172, 4, 0), ("eax", 176, 4, 0), ("ebp", 180, 4, 0), ("eip", 184, 4, 0), ("eflags", 192, 4, 0), ("esp", 196, 4, 0)]),
+                regs: same_named(&["eip", "esp", "ebp", "ebx", "esi", "edi", "eax", "ecx", "edx", "eflags"]),
+                aliases: vec![],
+                ip: "eip".into(),
+                sp: "esp".into(),
+            },
+            9 => Spec {
+                variant: "Amd64",
+                size: 1232,
+                flags: (48, 4),
+                cpu_flag: 0x100000,
+                cells: scalars(&[("rax", 120, 8, 0), ("rcx", 128, 8, 0), ("rdx", 136, 8, 0), ("rbx", 144, 8, 0), ("rsp", 152, 8, 0), ("rbp", 160, 8, 0), ("rsi", 168, 8, 0), ("rdi", 176, 8, 0), ("r8", 184, 8, 0), ("r9", 192, 8, 0), ("r10", 200, 8, 0), ("r11", 208, 8, 0), ("r12", 216, 8, 0), ("r13", 224, 8, 0), ("r14", 232, 8, 0), ("r15", 240, 8, 0), ("rip", 248, 8, 0)]),
+                regs: same_named(&["rax", "rdx", "rcx", "rbx", "rsi", "rdi", "rbp", "rsp", "r8", "r9", "r10", "r11", "r12", "r13", "r14", "r15", "rip"]),
+                aliases: vec![],
+                ip: "rip".into(),
+                sp: "rsp".into(),
+            },
+            3 => Spec {
+                variant: "Ppc",
+                size: 1004,
+                flags: (0, 4),
+                cpu_flag: 0x20000000,
+                cells: scalars(&[("srr0", 4, 4, 0), ("srr1", 8, 4, 0), ("gpr", 12, 4, 32), ("cr", 140, 4, 0), ("xer", 144, 4, 0), ("lr", 148, 4, 0), ("ctr", 152, 4, 0), ("mq", 156, 4, 0), ("vrsave", 160, 4, 0)]),
+                regs: [same_named(&["srr0", "srr1"]), indexed("r", "gpr", 0..32), same_named(&["cr", "xer", "lr", "ctr", "mq", "vrsave"])].concat(),
+                aliases: vec![],
+                ip: "srr0".into(),
+                sp: "gpr[1]".into(),
+            },
+            0x8002 => Spec {
+                variant: "Ppc64",
+                size: 1160,
+                flags: (0, 8),
+                cpu_flag: 0x1000000,
+                cells: scalars(&[("srr0", 8, 8, 0), ("srr1", 16, 8, 0), ("gpr", 24, 8, 32), ("cr", 280, 8, 0), ("xer", 288, 8, 0), ("lr", 296, 8, 0), ("ctr", 304, 8, 0), ("vrsave", 312, 8, 0)]),
+                regs: [same_named(&["srr0", "srr1"]), indexed("r", "gpr", 0..32), same_named(&["cr", "xer", "lr", "ctr", "vrsave"])].concat(),
+                aliases: vec![],
+                ip: "srr0".into(),
+                sp: "gpr[1]".into(),
+            },
+            0x8001 => Spec {
+                variant: "Sparc",
+                size: 584,
+                flags: (0, 4),
+                cpu_flag: 0x10000000,
+                cells: scalars(&[("g_r", 8, 8, 32), ("ccr", 264, 8, 0), ("pc", 272, 8, 0), ("npc", 280, 8, 0), ("y", 288, 8, 0), ("asi", 296, 8, 0), ("fprs", 304, 8, 0)]),
+                regs: [indexed("g_r", "g_r", 0..32), same_named(&["ccr", "pc", "npc", "y", "asi", "fprs"])].concat(),
+                // the register windows: globals, outs, locals, ins
+                aliases: (0..8usize)
+                    .flat_map(|i| [(format!("g{i}"), format!("g_r[{i}]")), (format!("o{i}"), format!("g_r[{}]", 8 + i)), (format!("l{i}"), format!("g_r[{}]", 16 + i)), (format!("i{i}"), format!("g_r[{}]", 24 + i))])
+                    .collect(),
+                ip: "pc".into(),
+                sp: "g_r[14]".into(),
+            },
+            5 => Spec {
+                variant: "Arm",
+                size: 368,
+                flags: (0, 4),
+                cpu_flag: 0x40000000,
+                cells: scalars(&[("iregs", 4, 4, 16)]),
+                regs: [indexed("r", "iregs", 0..11), named(&[("r12", "iregs[12]"), ("fp", "iregs[11]"), ("sp", "iregs[13]"), ("lr", "iregs[14]"), ("pc", "iregs[15]")])].concat(),
+                aliases: named(&[("r11", "iregs[11]"), ("r13", "iregs[13]"), ("r14", "iregs[14]"), ("r15", "iregs[15]")]),
+                ip: "iregs[15]".into(),
+                sp: "iregs[13]".into(),
+            },
+            12 | 0x8003 => Spec {
+                variant: if arch == 12 { "Arm64" } else { "OldArm64" },
+                size: if arch == 12 { 912 } else { 796 },
+                flags: if arch == 12 { (0, 4) } else { (0, 8) },
+                cpu_flag: if arch == 12 { 0x400000 } else { 0x80000000 },
+                cells: scalars(&[("iregs", 8, 8, 31), ("sp", 256, 8, 0), ("pc", 264, 8, 0)]),
+                regs: [indexed("x", "iregs", 0..29), named(&[("fp", "iregs[29]"), ("lr", "iregs[30]"), ("sp", "sp"), ("pc", "pc")])].concat(),
+                aliases: named(&[("x29", "iregs[29]"), ("x30", "iregs[30]")]),
+                ip: "pc".into(),
+                sp: "sp".into(),
+            },
+            1 => Spec {
+                variant: "Mips",
+                size: 600,
+                flags: (0, 4),
+                cpu_flag: 0x40000,
+                cells: scalars(&[("iregs", 8, 8, 32), ("epc", 312, 8, 0)]),
+                regs: [named(&[("gp", "iregs[28]"), ("sp", "iregs[29]"), ("fp", "iregs[30]"), ("ra", "iregs[31]"), ("pc", "epc")]), (0..8usize).map(|i| (format!("s{i}"), format!("iregs[{}]", 16 + i))).collect()].concat(),
+                aliases: vec![],
+                ip: "epc".into(),
+                sp: "iregs[29]".into(),
+            },
+            _ => return None,
+        })
+    }
+
+    /// every `ContextFlagsCpu` constant (`from_bits_truncate` keeps these bits only)
+    const CPU_ALL: u32 = 0x80000 | 0xc0 | 0x40 | 0x20000 | 0x100000 | 0x40000000 | 0x400000 | 0x80000000 | 0x40000 | 0x20000000 | 0x1000000 | 0x10000000 | 0x10000;
+
+    pub fn accepted(s: &Spec, flags: u64) -> bool {
+        ((flags as u32) & 0xffffff00) & CPU_ALL == s.cpu_flag
+    }
+
+    #[derive(Clone, Debug)]
+    pub struct Case {
+        pub arch: u16,
+        pub flags: u64,
+        pub seed: u64,
+        pub cells: Vec<(String, u64)>,
+    }
+
+    impl Case {
+        pub fn line(&self) -> String {
+            let r = if self.cells.is_empty() { "-".to_string() } else { self.cells.iter().map(|(c, v)| format!("{c}={v:x}")).collect::<Vec<_>>().join(",") };
+            format!("roundtrip ctx a={} fl={:x} seed={} R={}", self.arch, self.flags, self.seed, r)
+        }
+        pub fn parse(case: &str) -> Option<Case> {
+            let toks: Vec<&str> = case.split(' ').collect();
+            if toks.len() != 6 || toks[0] != "roundtrip" || toks[1] != "ctx" {
+                return None;
+            }
+            let arch = toks[2].strip_prefix("a=")?.parse().ok()?;
+            let flags = u64::from_str_radix(toks[3].strip_prefix("fl=")?, 16).ok()?;
+            let seed = toks[4].strip_prefix("seed=")?.parse().ok()?;
+            let r = toks[5].strip_prefix("R=")?;
+            let mut cells = Vec::new();
+            if r != "-" {
+                for it in r.split(',') {
+                    let (c, v) = it.split_once('=')?;
+                    if cells.iter().any(|(c2, _)| c2 == c) {
+                        return None;
+                    }
+                    cells.push((c.to_string(), u64::from_str_radix(v, 16).ok()?));
+                }
+            }
+            if flags > u32::MAX as u64 {
+                return None;
+            }
+            // every cell is a register cell of the record and the value fits it
+            if let Some(s) = spec(arch) {
+                for (c, v) in &cells {
+                    let (_, _, w) = s.cells.iter().find(|(n, _, _)| n == c)?;
+                    if *w < 8 && *v >> (8 * *w) != 0 {
+                        return None;
+                    }
+                }
+            } else if !cells.is_empty() {
+                return None;
+            }
+            Some(Case { arch, flags, seed, cells })
+        }
+        pub fn value(&self, cell: &str) -> u64 {
+            self.cells.iter().find(|(c, _)| c == cell).map(|(_, v)| *v).unwrap_or(0)
+        }
+        /// `roundtrip ctx <arch> <flags> <seed> <cells>` (the model's argument order)
+        pub fn request(&self, fle: &str, fbe: &str) -> String {
+            let r = if self.cells.is_empty() { "-".to_string() } else { self.cells.iter().map(|(c, v)| format!("{c}={v:x}")).collect::<Vec<_>>().join(",") };
+            format!("roundtrip ctx {} {:x} {} {} {} {}", self.arch, self.flags, self.seed, r, fle, fbe)
+        }
+    }
+
+    fn put(buf: &mut [u8], off: usize, w: usize, v: u64, be: bool) {
+        for i in 0..w {
+            let byte = (v >> (8 * i)) as u8;
+            if be {
+                buf[off + w - 1 - i] = byte;
+            } else {
+                buf[off + i] = byte;
+            }
+        }
+    }
+
+    /// the FOREIGN writer of one record; `None` for an architecture without context record
+    pub fn foreign_record(c: &Case, be: bool) -> Option<Vec<u8>> {
+        let s = spec(c.arch)?;
+        let e = tend(be);
+        // minidump-synth's sections where they exist (ip, sp, its own flags word and zeros), else filler
+        let mut buf: Vec<u8> = match s.variant {
+            "X86" => synth::x86_context(e, c.value(&s.ip) as u32, c.value(&s.sp) as u32).get_contents()?,
+            "Amd64" => synth::amd64_context(e, c.value(&s.ip), c.value(&s.sp)).get_contents()?,
+            "Arm64" => synth::arm64_context(e, c.value(&s.ip), c.value(&s.sp)).get_contents()?,
+            _ => (0..s.size as u64).map(|i| pattern_byte(c.seed, i)).collect(),
+        };
+        if buf.len() != s.size {
+            return None;
+        }
+        // non-register fields of synth's records: a filler of this writer's own, every other seed
+        if c.seed % 2 == 1 {
+            for (i, b) in buf.iter_mut().enumerate() {
+                *b = pattern_byte(c.seed ^ 0x5a5a, i as u64);
+            }
+        }
+        for (cell, off, w) in &s.cells {
+            put(&mut buf, *off, *w, c.value(cell), be);
+        }
+        put(&mut buf, s.flags.0, s.flags.1, c.flags, be);
+        // trailing bytes (XSTATE area / padding) are ignored by the reader
+        if c.seed % 5 == 0 {
+            buf.extend((0..(c.seed % 97) as u64).map(|i| pattern_byte(c.seed, 7 * i)));
+        }
+        Some(buf)
+    }
+
+    /// a dump with a system-info stream of architecture `arch` and one thread carrying `record`
+    pub fn wrap_dump(record: &[u8], arch: u16, be: bool) -> Option<Vec<u8>> {
+        let e = tend(be);
+        let mut si = synth::SystemInfo::new(e);
+        si.processor_architecture = arch;
+        si.csd_version_rva = 32;
+        let csd = synth::DumpString::new("ctx", e);
+        let stack = synth::Memory::with_section(Section::with_endian(e).append_bytes(&[0u8; 16]), 0x1000);
+        let ctx = Section::with_endian(e).append_bytes(record);
+        let d = synth::SynthMinidump::with_endian(e).add(csd).add_system_info(si).add_thread(synth::Thread::new(e, 7, &stack, &ctx)).add(ctx).add(stack);
+        d.finish()
+    }
+
+    fn render(ctx: &MinidumpContext, names: &[String]) -> String {
+        use minidump::MinidumpRawContext::*;
+        let (variant, flags) = match &ctx.raw {
+            X86(c) => ("X86", c.context_flags as u64),
+            Ppc(c) => ("Ppc", c.context_flags as u64),
+            Ppc64(c) => ("Ppc64", c.context_flags),
+            Amd64(c) => ("Amd64", c.context_flags as u64),
+            Sparc(c) => ("Sparc", c.context_flags as u64),
+            Arm(c) => ("Arm", c.context_flags as u64),
+            Arm64(c) => ("Arm64", c.context_flags as u64),
+            OldArm64(c) => ("OldArm64", c.context_flags),
+            Mips(c) => ("Mips", c.context_flags as u64),
+        };
+        let get: Vec<String> = names
+            .iter()
+            .map(|n| match ctx.get_register(n) {
+                Some(v) => format!("{n}={v:x}"),
+                None => format!("{n}=none"),
+            })
+            .collect();
+        let valid: Vec<String> = ctx.valid_registers().map(|(n, v)| format!("{n}={v:x}")).collect();
+        format!("{variant} fl={flags:x} ip={:x} sp={:x} get[{}] valid[{}]", ctx.get_instruction_pointer(), ctx.get_stack_pointer(), get.join(","), valid.join(","))
+    }
+
+    /// `MinidumpThread::context(system_info, None)` of the first thread, rendered like the model's `showRead`;
+    /// the error kind comes from `MinidumpContext::read` on the same bytes (`context()` drops it)
+    pub fn read_real(dump_bytes: &[u8], record: &[u8], names: &[String]) -> Result<(String, Option<MinidumpContext>), String> {
+        let dump = Minidump::<&[u8]>::read(dump_bytes).map_err(|e| format!("dump unreadable: {e:?}"))?;
+        let sys = dump.get_stream::<MinidumpSystemInfo>().map_err(|e| format!("system info unreadable: {e:?}"))?;
+        let threads = dump.get_stream::<MinidumpThreadList>().map_err(|e| format!("thread list unreadable: {e:?}"))?;
+        let t = threads.threads.first().ok_or("no thread")?;
+        let via_thread = t.context(&sys, None).map(|c| c.into_owned());
+        let direct = MinidumpContext::read(record, dump.endian, &sys, None);
+        match (via_thread, direct) {
+            (Some(c), Ok(d)) => {
+                let a = render(&c, names);
+                if a != render(&d, names) {
+                    return Err("MinidumpThread::context differs from MinidumpContext::read on the context bytes".into());
+                }
+                Ok((a, Some(c)))
+            }
+            (None, Err(ContextError::ReadFailure)) => Ok(("err ReadFailure".into(), None)),
+            (None, Err(ContextError::UnknownCpuContext)) => Ok(("err UnknownCpuContext".into(), None)),
+            (a, b) => Err(format!("MinidumpThread::context is {} but MinidumpContext::read is {}", if a.is_some() { "Some" } else { "None" }, if b.is_ok() { "Ok" } else { "Err" })),
+        }
+    }
+
+    pub fn all_names(s: &Spec) -> Vec<String> {
+        let mut names: Vec<String> = s.regs.iter().chain(s.aliases.iter()).map(|(n, _)| n.clone()).collect();
+        names.sort();
+        names.dedup();
+        names
+    }
+
+    pub fn exec(case: &str) -> ImplResult {
+        let mut res = ImplResult::default();
+        let Some(c) = Case::parse(case) else {
+            res.out = "bad-case".into();
+            res.oracle.push(("bad-case".into(), "the case line does not parse".into()));
+            return res;
+        };
+        let s = spec(c.arch);
+        let names = s.as_ref().map(all_names).unwrap_or_default();
+        let mut outs = Vec::new();
+        for be in [false, true] {
+            let tag = if be { "be" } else { "le" };
+            let record = foreign_record(&c, be).unwrap_or_else(|| (0..64u64).map(|i| pattern_byte(c.seed, i)).collect());
+            let Some(dump) = catch(|| wrap_dump(&record, c.arch, be)).ok().flatten() else {
+                res.oracle.push(("synth-failed".into(), format!("{tag}: minidump-synth could not serialize the dump")));
+                outs.push("synth-failed".to_string());
+                continue;
+            };
+            let (text, ctx) = match catch(|| read_real(&dump, &record, &names)) {
+                Ok(Ok(r)) => r,
+                Ok(Err(why)) => {
+                    res.oracle.push(("ctx-not-read".into(), format!("{tag}: {why}")));
+                    outs.push("unreadable".to_string());
+                    continue;
+                }
+                Err(p) => {
+                    res.oracle.push(("reader-panic".into(), format!("{tag}: {p}")));
+                    outs.push("PANIC".to_string());
+                    continue;
+                }
+            };
+            // the oracle: the context reads back the register file
+            match (&s, &ctx) {
+                (None, None) => {
+                    if text != "err UnknownCpuContext" {
+                        res.oracle.push(("ctx-error-kind".into(), format!("{tag}: architecture {} has no context record, the reader says {text}", c.arch)));
+                    }
+                }
+                (None, Some(_)) => res.oracle.push(("ctx-unexpected".into(), format!("{tag}: architecture {} has no context record but a context was read: {text}", c.arch))),
+                (Some(s), None) => {
+                    if accepted(s, c.flags) {
+                        res.oracle.push(("ctx-not-read".into(), format!("{tag}: a {} record with flags {:x} must be read, the reader says {text}", s.variant, c.flags)));
+                    } else if text != "err ReadFailure" {
+                        res.oracle.push(("ctx-error-kind".into(), format!("{tag}: flags {:x} do not select {}, the reader says {text}", c.flags, s.variant)));
+                    }
+                }
+                (Some(s), Some(ctx)) => {
+                    if !accepted(s, c.flags) {
+                        res.oracle.push(("ctx-unexpected".into(), format!("{tag}: flags {:x} do not select {} but a context was read", c.flags, s.variant)));
+                    }
+                    if !text.starts_with(&format!("{} fl={:x} ", s.variant, c.flags)) {
+                        res.oracle.push(("ctx-kind-or-flags-differ".into(), format!("{tag}: expected {} with flags {:x}: {text}", s.variant, c.flags)));
+                    }
+                    for (n, cell) in s.regs.iter().chain(s.aliases.iter()) {
+                        let want = c.value(cell);
+                        let got = ctx.get_register(n);
+                        if got != Some(want) {
+                            res.oracle.push(("ctx-register-differs".into(), format!("{tag}: {} get_register({n}) = {got:x?}, the model's cell {cell} holds {want:x}", s.variant)));
+                        }
+                        let always = catch(|| ctx.get_register_always(n));
+                        if always != Ok(want) {
+                            res.oracle.push(("ctx-register-differs".into(), format!("{tag}: {} get_register_always({n}) = {always:x?}, the model's cell {cell} holds {want:x}", s.variant)));
+                        }
+                    }
+                    if ctx.get_instruction_pointer() != c.value(&s.ip) {
+                        res.oracle.push(("ctx-ip-sp-differ".into(), format!("{tag}: get_instruction_pointer = {:x}, cell {} holds {:x}", ctx.get_instruction_pointer(), s.ip, c.value(&s.ip))));
+                    }
+                    if ctx.get_stack_pointer() != c.value(&s.sp) {
+                        res.oracle.push(("ctx-ip-sp-differ".into(), format!("{tag}: get_stack_pointer = {:x}, cell {} holds {:x}", ctx.get_stack_pointer(), s.sp, c.value(&s.sp))));
+                    }
+                    let valid: Vec<(String, u64)> = ctx.valid_registers().map(|(n, v)| (n.to_string(), v)).collect();
+                    let want: Vec<(String, u64)> = s.regs.iter().map(|(n, cell)| (n.clone(), c.value(cell))).collect();
+                    if valid != want {
+                        res.oracle.push(("ctx-valid-registers-differ".into(), format!("{tag}: valid_registers() = {valid:x?}, the general-purpose registers of the model are {want:x?}")));
+                    }
+                    let gpr: Vec<&str> = ctx.general_purpose_registers().to_vec();
+                    if gpr != s.regs.iter().map(|(n, _)| n.as_str()).collect::<Vec<_>>() {
+                        res.oracle.push(("ctx-valid-registers-differ".into(), format!("{tag}: general_purpose_registers() = {gpr:?}")));
+                    }
+                }
+            }
+            outs.push(text);
+        }
+        if outs.len() == 2 && outs[0] != outs[1] {
+            res.oracle.push(("ctx-endian-dependent".into(), format!("LE: {} — BE: {}", outs[0], outs[1])));
+        }
+        // `same` needs the case: the answer carries it in front
+        res.out = format!("{case} ## {}", outs.join(" ## "));
+        res.nontrivial = s.is_some() && !c.cells.is_empty();
+        res.tags.push("kind:context".into());
+        res.tags.push(format!("ctx:{}", s.as_ref().map(|s| s.variant).unwrap_or("none")));
+        if let Some(s) = &s {
+            res.tags.push(format!("ctx-flags:{}", if accepted(s, c.flags) { "accepted" } else { "other-cpu" }));
+            res.tags.push(format!("ctx-cells:{}", bucket(c.cells.len())));
+            if c.cells.iter().any(|(cell, v)| s.cells.iter().any(|(n, _, w)| n == cell && (*w == 8 && *v == u64::MAX || *w == 4 && *v == u32::MAX as u64))) {
+                res.tags.push("ctx-value:all-ones".into());
+            }
+            if matches!(s.variant, "X86" | "Amd64" | "Arm64") && c.seed % 2 == 0 {
+                res.tags.push("ctx-writer:synth-section".into());
+            } else {
+                res.tags.push("ctx-writer:by-hand".into());
+            }
+        }
+        res
+    }
+
+    pub fn model_request(case: &str) -> Option<String> {
+        let c = Case::parse(case)?;
+        let f = |be: bool| foreign_record(&c, be).map(|b| hex(&b)).unwrap_or_else(|| "-".to_string());
+        Some(c.request(&f(false), &f(true)))
+    }
+
+    fn names_of(text: &str) -> Vec<String> {
+        let Some(start) = text.find(" get[") else { return vec![] };
+        let rest = &text[start + 5..];
+        let Some(end) = rest.find(']') else { return vec![] };
+        rest[..end].split(',').filter_map(|it| it.split('=').next()).filter(|n| !n.is_empty()).map(|n| n.to_string()).collect()
+    }
+
+    /// `model_out` = hex(own LE) ## hex(own BE) ## read(foreign LE) ## read(foreign BE) ## read(own LE) ## read(own BE) ## expected
+    pub fn same(impl_out: &str, model_out: &str) -> bool {
+        let parts: Vec<&str> = impl_out.split(" ## ").collect();
+        let mo: Vec<&str> = model_out.split(" ## ").collect();
+        if parts.len() != 3 || mo.len() != 7 {
+            return false;
+        }
+        let Some(c) = Case::parse(parts[0]) else { return false };
+        let i = &parts[1..];
+        let expected = mo[6];
+        let names = names_of(expected);
+        let Some(s) = spec(c.arch) else {
+            // no record type: nothing to encode; both say UnknownCpuContext (the foreign record is `-` for the model)
+            return mo[0] == "-" && mo[1] == "-" && i[0] == expected && i[1] == expected;
+        };
+        // the model's name universe (C18's tables) covers the hand-written one
+        if !accepted(&s, c.flags) {
+            if expected != "err ReadFailure" {
+                return false;
+            }
+        } else if all_names(&s).iter().any(|n| !names.contains(n)) {
+            return false;
+        }
+        for (k, be) in [(0usize, false), (1usize, true)] {
+            // 1. Lean decoder = real reader on the foreign writer's record — on the names of C18's tables
+            let Some(record) = foreign_record(&c, be) else { return false };
+            let Some(dump) = catch(|| wrap_dump(&record, c.arch, be)).ok().flatten() else { return false };
+            let Ok(Ok((real_foreign, _))) = catch(|| read_real(&dump, &record, &names)) else { return false };
+            if real_foreign != mo[2 + k] || mo[2 + k] != expected {
+                return false;
+            }
+            // the answer computed in `exec` (hand-written names) must be the same context
+            if i[k].split(" get[").next() != real_foreign.split(" get[").next() {
+                return false;
+            }
+            // 2. real reader on the Lean encoder's record = Lean decoder on it = the register file
+            let Some(own) = unhex(mo[k]) else { return false };
+            let Some(dump) = catch(|| wrap_dump(&own, c.arch, be)).ok().flatten() else { return false };
+            let Ok(Ok((real_own, _))) = catch(|| read_real(&dump, &own, &names)) else { return false };
+            if real_own != mo[4 + k] || real_own != expected {
+                return false;
+            }
+        }
+        true
+    }
+
+    pub fn shrink(case: &str, still_fails: &dyn Fn(&str) -> bool) -> String {
+        let Some(mut c) = Case::parse(case) else { return case.to_string() };
+        let mut i = 0;
+        while i < c.cells.len() {
+            let mut d = c.clone();
+            d.cells.remove(i);
+            if still_fails(&d.line()) {
+                c = d;
+            } else {
+                i += 1;
+            }
+        }
+        for k in 0..c.cells.len() {
+            for v in [1u64, 0xff] {
+                let mut d = c.clone();
+                if d.cells[k].1 > v {
+                    d.cells[k].1 = v;
+                    if still_fails(&d.line()) {
+                        c = d;
+                        break;
+                    }
+                }
+            }
+        }
+        let mut d = c.clone();
+        d.seed = 2;
+        if still_fails(&d.line()) {
+            c = d;
+        }
+        c.line()
+    }
+
+    pub const ARCHS: [u16; 10] = [0, 10, 9, 3, 0x8002, 0x8001, 5, 12, 0x8003, 1];
+
+    pub fn generate(tier: Tier, rng: &mut Rng, emit: &mut dyn FnMut(String)) {
+        let per_arch = if tier == Tier::Quick { 24 } else { 200 };
+        for &arch in ARCHS.iter() {
+            let s = spec(arch).unwrap();
+            let max = |w: usize| if w >= 8 { u64::MAX } else { (1u64 << (8 * w)) - 1 };
+            for k in 0..per_arch {
+                let mut cells = Vec::new();
+                for (idx, (cell, _, w)) in s.cells.iter().enumerate() {
+                    let v = match k % 8 {
+                        0 => 0,
+                        1 => max(*w),
+                        2 => u32::MAX as u64 & max(*w),
+                        // pairwise distinct values: a swapped or mis-indexed cell cannot hide
+                        3 => (0x0101_0101_0101_0101u64.wrapping_mul(idx as u64 + 1)) & max(*w),
+                        4 => {
+                            if rng.chance(1, 3) {
+                                rng.next() & max(*w)
+                            } else {
+                                0
+                            }
+                        }
+                        5 => *rng.pick(&[0, 1, 0x7fff_ffff, 0x8000_0000, 0xffff_ffff, 0x1_0000_0000, 0x7fff_ffff_ffff_ffff, 0x8000_0000_0000_0000, u64::MAX]) & max(*w),
+                        _ => rng.next() & max(*w),
+                    };
+                    if v != 0 {
+                        cells.push((cell.clone(), v));
+                    }
+                }
+                // flags: this CPU's constant + feature bits; sometimes bits `from_bits_truncate` drops; rarely another CPU
+                let mut flags = s.cpu_flag as u64 | rng.below(0x40);
+                if rng.chance(1, 4) {
+                    flags |= *rng.pick(&[0x100u64, 0x200, 0x8000, 0x2000000, 0x4000000, 0x8000000]);
+                }
+                if rng.chance(1, 12) {
+                    flags = *rng.pick(&[0u64, 0x10000, 0x100000, 0x400000, 0x40000000, 0x80000000, 0x10000 | 0x100000, 0x80000, 0x20000]) | rng.below(8);
+                }
+                emit(Case { arch, flags, seed: rng.below(1000), cells }.line());
+            }
+        }
+        // architectures without a context record
+        for arch in [2u16, 4, 6, 7, 8, 11, 0x8004, 0xffff] {
+            emit(Case { arch, flags: *rng.pick(&[0u64, 0x10001, 0x80001]), seed: rng.below(1000), cells: vec![] }.line());
+        }
+    }
 }
